@@ -317,6 +317,10 @@ def check_polynomial(ctx, mesh, dname, ax, dx, order, periodic, valid, cls):
     else:
         g = rng.uniform(0.5, 2.0, other_shape) * rng.choice([-1, 1], other_shape)
         h = rng.normal(size=other_shape)
+        if rng.random() < 0.3:
+            # a large constant on top of a small variation (a field that is "almost
+            # uniform" along the line still has its exact derivative)
+            h = h + 10.0 ** rng.uniform(3, 6) * rng.choice([-1, 1])
         coefs = [rng.uniform(0.5, 2.0, c + 1) * rng.choice([-1, 1], c + 1) for c in range(ndeg)]
     arr = np.zeros((*n, ndeg))
     exp = np.zeros((*n, ndeg))
@@ -364,7 +368,11 @@ def check_polynomial(ctx, mesh, dname, ax, dx, order, periodic, valid, cls):
         return False
     d = dfield.array
     fmax = np.max(np.abs(arr))
-    tol = TOL_EXACT * fmax / dx**order
+    # natural scale of the derivative: the variation of the data (not the constant on
+    # top), plus the rounding error of the stored values themselves
+    fvar = np.max(np.abs(arr - np.broadcast_to(np.expand_dims(
+        np.broadcast_to(h, other_shape), ax)[..., None], arr.shape)))
+    tol = (TOL_EXACT * fvar + 64 * np.finfo(float).eps * fmax) / dx**order
     # zeros: invalid cells and runs not longer than the order
     short = zero & valid
     if short.any():
